@@ -507,6 +507,13 @@ pub fn run_property(engine: &'static dyn Engine, tier: Tier) -> i32 {
         log_hash
     );
 
+    if std::env::var("VERIF_TIMING").is_ok() {
+        let mut t: Vec<(u64, u64)> = results.iter().map(|(i, r)| (r.stats.elapsed_ms, *i)).collect();
+        t.sort();
+        t.reverse();
+        let total: u64 = t.iter().map(|x| x.0).sum();
+        println!("timing: total_ms={total} slowest (ms,index): {:?}", &t[..t.len().min(25)]);
+    }
     // ---- violations: known findings vs new
     let mut known_seen: BTreeMap<String, u64> = BTreeMap::new();
     let mut new_sigs: Vec<(String, u64, Violation, u64)> = Vec::new();
